@@ -10,3 +10,7 @@ check('C02', 'runtime monitor: reference-model oracle (independent precedence-cl
       'Held on every sequence executed: default table exhaustively for <=2 (quick) / <=3 (thorough) binary operators x <=2 prefix placements, random sequences with up to 12 operators incl. calls, lists, maps, index expressions, mapping rules, skipped slots and random whitespace; legacy table; custom homogeneous tables from 1-4 insert_operator calls.',
       'The model parser and the generator share the token vocabulary; tables whose groups are not homogeneous are excluded as the property states.',
       'DESIGN.md 2/C02')
+check('C16', 'runtime monitor: round-trip oracle parse(spell(s,q)).value == s on the Constant node and the evaluated value, Python literal evaluation (ast.literal_eval) as reference for escape forms, int()/float() for numerals, keyword self-denotation and __-rejection assertions',
+      'Held on every literal executed: each BMP code point alone and embedded in all three quote styles (exhaustive), astral samples, generated strings biased to quotes/backslashes/escape look-alikes, escape-form soups vs Python, integers up to 4000 digits, decimals, 5000 identifier-shaped words, 200 __words. One language limitation of the verbatim style is a listed known finding.',
+      'spell() is the harness definition of the canonical spelling; escape forms that are not valid Python literals are out of scope (C03 covers them).',
+      'DESIGN.md 2/C16')
